@@ -10,6 +10,7 @@ mod wire;
 mod ops_apply;
 mod ops_case;
 mod ops_variant;
+mod ops_serde;
 
 /// every `ops_*.rs` owns some operations: `dispatch(fields) -> Option<String>` (None = not mine)
 const HANDLERS: &[fn(&[&str]) -> Option<String>] = &[
@@ -17,6 +18,7 @@ const HANDLERS: &[fn(&[&str]) -> Option<String>] = &[
     ops_apply::dispatch,
     ops_case::dispatch,
     ops_variant::dispatch,
+    ops_serde::dispatch,
 ];
 
 fn dispatch(fields: &[&str]) -> String {
